@@ -193,6 +193,7 @@ def run(ctx, args):
     # the statement grammar (no listed property is about it: differences are notes only)
     import gramcheck
     counts["grammar"] = gramcheck.run_grammar_conformance(ctx, 4, 3000 if ctx.tier == "quick" else 40000)
+    counts["grammar_module_level"] = gramcheck.run_grammar_conformance(ctx, 3 if ctx.tier == "quick" else 4, 2000 if ctx.tier == "quick" else 30000, mode="module")
     multi = sum(1 for c in cases if c["kind"] == "span" for r in c["rows"] if not r["r"]["single"])
     lay = [c for c in cases if c["kind"] == "layout"]
     samples = [{"text": text_of(cases[300]["text"]), "rows": cases[300]["rows"][:4]}, {"source": build_layout(lay[7]), "located": {k: fmt(v) for k, v in lay[7]["located"].items()}}]
@@ -203,7 +204,7 @@ def run(ctx, args):
              f"line break, blank line, mixed, at {vg} varied gaps incl. leading white space) with 17 identifier ranges (two of them operands of ++ / --), 8 composite hulls (a while loop, a global written after the function) and the redeclaration "
              f"diagnostic each. Scanner: {lex_texts} texts (all texts over a 12-character alphabet up to length {4 if ctx.tier == 'quick' else 5} and {len(lexcheck.PROBES)} probe texts) scanned by "
              "spec/Lexer.tla (invariants Covers, Maximal, Progress) and by nsl/lexer.py, compared token for token (type, text, offset, line) and in the illegal characters reported. "
-             "Statement grammar (notes only): every token sequence up to length 4 over 17 tokens and seeded derivations with one-token mutations, decided by spec/Grammar.tla and by nsl/parser.py. "
+             "Statement and module grammar (notes only): every token sequence up to length 4 over 17 tokens (bodies) / 3-4 over 16 tokens (modules) and seeded derivations with one-token mutations, decided by spec/Grammar.tla and by nsl/parser.py. "
              "distinct_nontrivial = multi-line ranges + layouts.",
         samples=samples, exhaustive=True, traces_validated=len(cases),
         assumptions=["the range reported for a redeclared variable may be its identifier or the identifier together with its initialiser (both designate the declaration)",
